@@ -141,6 +141,17 @@ fn valid_identifier(s: &str) -> bool {
 fn draw_candidate_name() -> String {
     let len = tape::choose("c20:name_len", 61) as usize;
     let alphabet: Vec<char> = "abcXYZ019_ \"';-./\\*?\n\t\u{e9}\u{4e16}%$()".chars().collect();
+    // Nearly valid: a valid identifier with one character that only LOOKS alphanumeric
+    // (non-ASCII letters and digits), or one ASCII character outside [A-Za-z0-9_].
+    if tape::chance("c20:name_nearly", 1, 4) {
+        let ok: Vec<char> = "abcXYZ019_".chars().collect();
+        let tricky: Vec<char> = "\u{e9}\u{434}\u{ff21}\u{b2}\u{663}\u{4e16}\u{df}\u{130}-. ".chars().collect();
+        let n = 1 + tape::choose("c20:nearly_len", 47) as usize;
+        let mut v: Vec<char> = (0..n).map(|_| ok[tape::choose("c20:name_char_ok", 10) as usize]).collect();
+        let at = tape::choose("c20:nearly_at", n as u64) as usize;
+        v[at] = tricky[tape::choose("c20:nearly_char", tricky.len() as u64) as usize];
+        return v.into_iter().collect();
+    }
     let wild = tape::chance("c20:name_wild", 2, 3);
     (0..len)
         .map(|_| {
